@@ -166,7 +166,7 @@ def check_c19(prop, tier):
         replayed = hists if len(hists) <= 3000 else rng.sample(hists, 3000)
         for h in replayed:
             seed += 1
-            items.append(("synth", {"seed": seed, "nform": rng.randint(1, 5), "npts": rng.randint(0, 3), "hist": h, "nl": rng.random() < 0.8}))
+            items.append(("synth", {"seed": seed, "nform": rng.choice([1, 2, 3, 4, 5, 5, 10, 12]), "npts": rng.randint(0, 3), "hist": h, "nl": rng.random() < 0.8}))
         for h in rng.sample(hists, min(sz["fixture"], len(hists))):
             seed += 1
             items.append(("fixture", {"seed": seed, "hist": h}))
